@@ -88,8 +88,8 @@ pub fn run(ctx: &Ctx) -> Report {
         "Grammar-generated HTML inputs (documents and fragments under ~50 context elements, scripting on/off, declarative-shadow-root policy, random chunkings) and generated XML documents (namespaced AST rendered to text, with noise and repeated DOCTYPEs) are parsed into ModelDom with the contract monitor on: every TreeSink call is validated before it is applied (element-only operations get elements; get_template_contents only HTML template elements created with the template flag; associate_with_form gets an HTML form and elements; append/append_based_on_parent_node children have no parent; no node inserted under itself or a descendant; insert-before reference has a parent and is not text; doctype appended at most once and before any element; no attribute list with two attributes of the same (ns, local) or (prefix, local)). Non-trivial: the call trace contains remove_from_parent, reparent_children, append_before_sibling, append_based_on_parent_node, add_attrs_if_missing, get_template_contents, associate_with_form, mark_script_already_started or append_doctype_to_document; distinct by hash of the call-name trace.",
     );
     rep.assume("the clauses are those written in markup5ever/interface/tree_builder.rs doc comments plus the property statement");
-    report_known(ctx, &mut rep, &|v| replay(ctx, v));
-    run_regressions(ctx, &mut rep, &|v| replay(ctx, v));
+    report_known(ctx, &mut rep, &|v| replay(&ctx.strict_clone(), v));
+    run_regressions(ctx, &mut rep, &|v| replay(&ctx.strict_clone(), v));
     let out = run_random(ctx.seed, ctx.tier.pick(300_000, 15_000_000), 1500, decode, |c, st| {
         if ctx.tolerate("KF-C05-xml-two-doctypes") {
             if let Case::Xml { text, .. } = c {
